@@ -79,6 +79,7 @@ var impls = map[string]func(string) string{
 	"so.locmatch":     implSoLocMatch,
 	"so.store":        implSoStore,
 	"so.index":        implSoIndex,
+	"sshpool.accept":  implSshPoolAccept,
 }
 
 type replayFile struct {
